@@ -39,15 +39,57 @@ error is left out and *nothing else changes* (`Ref.opEvents`).
 Full-strength statement (for all operators, also with `fn_batch_size` / `batch_size`, and for
 every source): **false** on the real code —
 * `assign` with batch sizes loses every record after the first failing call (finding F5,
-  `Witness/C12.lean: C12_F5_witness`) — excluded here by `OpOK.unbatched`;
-* a skippable error that is *passed on* to `assign` / `filter` / `sink` (from a source that does
-  not skip by itself, or from the unguarded output routing of the previous operator) ends the
-  run with `IndexError` (finding F-C12-passed-on, `C12_passed_on_witness`) — excluded by `CleanRun`. -/
+  `Witness/C12.lean: C12_F5_witness`) — excluded here by `OpOK.unbatched`.
+`CleanRun` (no skippable error is *passed on* between operators) is no longer needed for the real
+runner to behave — finding F-C12-passed-on is repaired —: `C12_skip_any_partial` below is this theorem
+without it, against the reference `Ref.chainEventsS` that says what becomes of a passed-on error;
+under `CleanRun` the two references coincide (`C12_skip_any_extends`). -/
 theorem C12_skip_partial (ops : List Op) (hops : ∀ op ∈ ops, OpOK op)
     (src : List (Ev Val)) (hc : Ref.CleanRun true ops src) :
     ((Impl.run true ops src).out, (Impl.run true ops src).err)
       = observe (Ref.chainEvents true ops src) := by
   simp only [Impl.run, topEvents_spec true ops hops src hc]
+
+/-- **C12_skip_any_partial** (every source, every passed-on error; the repaired
+`processed_with_inputs`, finding F-C12-passed-on).  For every chain of un-batched operators of ANY kind
+and EVERY finite stream of source outcomes — any number and position of failing reads, any error kind,
+no `Clean` / `CleanRun` condition: with skipping on, what the caller of the real runner observes is
+the reference run `Ref.chainEventsS true`: every operator first leaves out the skippable errors that
+are passed on to it (`Ref.skipNT`: failing reads of the data source in front of the first operator,
+skippable errors of the previous operator's output routing in front of the others) and then processes
+the remaining records one by one (`Ref.opEvents`: a record whose inputs cannot be read or whose
+function raises a skippable error is left out, nothing else changes).  So an element behind a failing
+one is never lost and never mis-paired, whatever the kind of the operator that meets the failure.
+
+Partial: operators without batch sizes (`OpOK`); batched `apply` / `select`: `C12_skip_batched_partial`;
+`assign` with batch sizes: false (F5). -/
+theorem C12_skip_any_partial (ops : List Op) (hops : ∀ op ∈ ops, OpOK op) (src : List (Ev Val)) :
+    ((Impl.run true ops src).out, (Impl.run true ops src).err)
+      = observe (Ref.chainEventsS true ops src) := by
+  simp only [Impl.run, topEventsS_spec true ops hops src]
+
+/-- `C12_skip_any_partial` extends `C12_skip_partial`: on a run in which no skippable error is passed
+on, `Ref.chainEventsS` is `Ref.chainEvents` -/
+theorem C12_skip_any_extends (ignore : Bool) (ops : List Op) (src : List (Ev Val))
+    (hc : Ref.CleanRun ignore ops src) :
+    Ref.chainEventsS ignore ops src = Ref.chainEvents ignore ops src :=
+  chainEventsS_of_cleanRun ignore ops src hc
+
+/-- **C12_passed_on_uniform** (the statement finding F-C12-passed-on violated).  Every un-batched
+operator — `apply`, `select`, `assign`, `filter`, `sink` alike — treats a skippable error that reaches
+it from upstream as if the failing element were not there: its iterator over any source produces
+exactly what it produces over the source without the skippable failing reads; all successful reads
+are still there, in order.  (Before the repair an `assign` / `filter` / `sink` ended the run with
+`IndexError('No element left')` here while an `apply` skipped the element.)  With skipping off
+nothing is removed (`Ref.skipNT false` keeps every event). -/
+theorem C12_passed_on_uniform (ignore : Bool) (op : Op) (h : OpOK op) (src : List (Ev Val)) :
+    (Impl.opIterate ignore op src).evs.map (·.ev)
+        = (Impl.opIterate ignore op (Ref.skipNT ignore src)).evs.map (·.ev) ∧
+    (Impl.opIterate ignore op src).evs.map (·.ev)
+        = Ref.opEvents ignore op op.s0 (Ref.skipNT ignore src) ∧
+    oks (Ref.skipNT ignore src) = oks src := by
+  refine ⟨?_, opIterate_src_spec ignore op h src, oks_skipNT ignore src⟩
+  rw [opIterate_src_spec ignore op h src, opIterate_src_spec ignore op h _, skipNT_idem]
 
 /-- **C12_skip** (one operator whose function keeps no state): the run with skipping on is the
 run with skipping *off* over the stream from which exactly the skipped elements have been removed —
@@ -276,24 +318,31 @@ theorem C12_threadsafe_resumable {α : Type} (evs : List (Ev α)) (sched : List 
   · rw [tsServe_events, drain_gen, drain_cursor evs _ h]
 
 /-- **C12_skip_source_partial** (failing SOURCES, not failing functions).  A chain whose first operator is
-an un-batched `apply` / `select`, over ANY finite source — every number and position of failing reads,
-every error kind, no `Clean` condition on the source: with skipping on, what the caller observes is the
-reference run over the source *from which exactly the skippable failing reads have been removed*
-(`Ref.skipNT true`: the successful reads all survive, in order — `oks_skipNT` —, a non-skippable
-failing read stays and ends the run).  So an element behind a failing read is never lost.
+ANY un-batched operator — `apply`, `select`, `assign`, `filter` or `sink` (the hypothesis "`apply` / `select`
+first" of earlier rounds is gone with the repair of finding F-C12-passed-on) —, over ANY finite source —
+every number and position of failing reads, every error kind, no `Clean` condition on the source: with
+skipping on, what the caller observes is the reference run over the source *from which exactly the
+skippable failing reads have been removed* (`Ref.skipNT true`: the successful reads all survive, in
+order — `oks_skipNT` —, a non-skippable failing read stays and ends the run).  So an element behind a
+failing read is never lost.
 
-Partial: the operators behind the first satisfy the conditions of `C12_skip_partial` on the stream
-they receive (`hc`); a first operator `assign` / `filter` / `sink` is **false** on the real code
-(finding F-C12-passed-on, `C12_passed_on_witness`); batched first operators: `C12_skip_batched_partial`
-(`Ref.skipNT` is built into `Ref.batchedCols` there). -/
-theorem C12_skip_source_partial (op : Op) (ops : List Op) (hk : op.kind = .select ∨ op.kind = .apply)
+Partial: stated against `Ref.chainEvents`, so the operators behind the first must not pass skippable
+errors on (`hc`; `C12_skip_any_partial` has no such condition, against `Ref.chainEventsS`); batched first
+operators: `C12_skip_batched_partial` (`Ref.skipNT` is built into `Ref.batchedCols` there). -/
+theorem C12_skip_source_partial (op : Op) (ops : List Op)
     (hop : OpOK op) (hops : ∀ o ∈ ops, OpOK o) (src : List (Ev Val))
     (hc : Ref.CleanRun true ops (Ref.opEvents true op op.s0 (Ref.skipNT true src))) :
     ((Impl.run true (op :: ops) src).out, (Impl.run true (op :: ops) src).err)
       = observe (Ref.chainEvents true (op :: ops) (Ref.skipNT true src)) ∧
     oks (Ref.skipNT true src) = oks src := by
   refine ⟨?_, oks_skipNT true src⟩
-  simp only [Impl.run, topEvents_src_spec true op ops hk hop hops src hc]
+  have hall : ∀ o ∈ op :: ops, OpOK o := by
+    intro o ho
+    rcases List.mem_cons.mp ho with rfl | ho
+    · exact hop
+    · exact hops o ho
+  simp only [Impl.run, topEventsS_spec true (op :: ops) hall src, Ref.chainEventsS, Ref.chainEvents,
+    chainEventsS_of_cleanRun true ops _ hc]
 
 /-- **C12_skip_threaded_source_partial.**  `C12_skip_source_partial` for the one-worker threaded runner
 (`num_threads = 1` over one un-sharded, resumable source): the worker's operator chain reads the
@@ -302,7 +351,7 @@ and what it produces is the reference run over the source with exactly the skipp
 removed.  (The queue between the worker and the caller is C04 / C13; with several workers each event
 of the source still goes to exactly one of them: `C12_threadsafe_transparent`.) -/
 theorem C12_skip_threaded_source_partial (op : Op) (ops : List Op)
-    (hk : op.kind = .select ∨ op.kind = .apply) (hop : OpOK op) (hops : ∀ o ∈ ops, OpOK o)
+    (hop : OpOK op) (hops : ∀ o ∈ ops, OpOK o)
     (src : List (Ev Val))
     (hc : Ref.CleanRun true ops (Ref.opEvents true op op.s0 (Ref.skipNT true src)))
     (fuel : Nat) (hf : src.length < fuel) :
@@ -310,7 +359,7 @@ theorem C12_skip_threaded_source_partial (op : Op) (ops : List Op)
      (Impl.run true (op :: ops) (drain (tsNext cursorNext) fuel { inner := src })).err)
       = observe (Ref.chainEvents true (op :: ops) (Ref.skipNT true src)) := by
   rw [drain_ts, drain_cursor src fuel hf]
-  exact (C12_skip_source_partial op ops hk hop hops src hc).1
+  exact (C12_skip_source_partial op ops hop hops src hc).1
 
 /-! ## non-vacuity -/
 
@@ -425,6 +474,60 @@ example : Ref.CleanRun true [exAssignAfter] (Ref.opEvents true exFail exFail.s0 
 example : (Impl.run true [exFail, exAssignAfter] exSrcFail).out.length = 2 ∧
     (Impl.run true [exFail, exAssignAfter] exSrcFail).err = none ∧
     (Impl.run true [exFail, exAssignAfter] (drain (tsNext cursorNext) 9 { inner := exSrcFail })).out.length = 2 := by
+  decide +kernel
+
+/-- the same failing source directly in front of an `assign` / a `filter` / a `sink` (the input class of
+the repaired finding F-C12-passed-on): the hypotheses of `C12_skip_source_partial` hold, the element
+behind the failing read arrives next to its own input, no error -/
+def exAssignFirst : Op :=
+  { kind := .assign, inKeys := [.name "a"], outKeys := [.key (.name "z")],
+    fn := fun s args _ => (match args with | [.int i] => .ok (.int (i + 1)) | _ => .error .type, s) }
+
+def exFilterFirst : Op :=
+  { kind := .filter, inKeys := [.name "a"], outKeys := [],
+    fn := fun s args _ => (match args with | [.int i] => .ok (.bool (i != 0)) | _ => .error .type, s) }
+
+def exSinkFirst : Op :=
+  { kind := .sink, inKeys := [.name "a"], outKeys := [.key .self],
+    fn := fun s _ _ => (.ok .none, s + 1) }
+
+/-- the integer under a name of a dict record (to read results in the examples) -/
+def intAt (k : String) : Val → Int
+  | .dict kvs => (match lookup k kvs with | some (.int i) => i | _ => -1)
+  | _ => -1
+
+example : OpOK exAssignFirst :=
+  ⟨⟨rfl, rfl⟩, fun k k' rest h => by simp [exAssignFirst] at h, fun h => by simp [exAssignFirst] at h⟩
+
+example : OpOK exFilterFirst := by
+  refine ⟨⟨rfl, rfl⟩, fun k k' rest h => by simp [exFilterFirst] at h, fun _ => ?_⟩
+  intro s ins v s' h xs hv
+  subst hv
+  simp only [callFn, exFilterFirst, List.isEmpty_nil, if_true] at h
+  split at h
+  · rename_i heq
+    simp only [Prod.mk.injEq, Except.ok.injEq] at h
+    obtain ⟨hv, _⟩ := h
+    subst hv
+    split at heq <;> simp at heq
+  · simp at h
+
+example : OpOK exSinkFirst :=
+  ⟨⟨rfl, rfl⟩, fun k k' rest h => by simp [exSinkFirst] at h, fun h => by simp [exSinkFirst] at h⟩
+
+example : Ref.CleanRun true [] (Ref.opEvents true exAssignFirst exAssignFirst.s0 (Ref.skipNT true exSrcFail)) :=
+  cleanRunB_sound _ _ _ (by decide +kernel)
+
+example :
+    (Impl.run true [exAssignFirst] exSrcFail).out.map (fun r => (intAt "a" r, intAt "z" r)) = [(3, 4), (7, 8)] ∧
+    (Impl.run true [exAssignFirst] exSrcFail).err = none ∧
+    (Impl.run true [exFilterFirst] exSrcFail).out.length = 2 ∧
+    (Impl.run true [exFilterFirst] exSrcFail).err = none ∧
+    (Impl.run true [exSinkFirst, exAssignFirst] exSrcFail).out.length = 2 ∧
+    (Impl.run true [exSinkFirst, exAssignFirst] exSrcFail).err = none ∧
+    -- skipping off: the failing read surfaces, one record before it
+    (Impl.run false [exAssignFirst] exSrcFail).out.length = 1 ∧
+    (Impl.run false [exAssignFirst] exSrcFail).err = some { kind := .value } := by
   decide +kernel
 
 end MlModel.C12
